@@ -136,5 +136,18 @@ def translate_next_channel(transport_cls):
     out.append(",\n".join('  ("%s", %s)' % (c, "true" if l else "false") for c, _, l in sites))
     out.append("]")
     out.append("")
+    import ast as _ast
+    cls = _ast.parse(textwrap.dedent(inspect.getsource(transport_cls))).body[0]
+    writers = []
+    for fn in cls.body:
+        if isinstance(fn, _ast.FunctionDef):
+            for n in _ast.walk(fn):
+                targets = n.targets if isinstance(n, _ast.Assign) else [n.target] if isinstance(n, _ast.AugAssign) else []
+                for t in targets:
+                    if isinstance(t, _ast.Attribute) and t.attr == "_channel_counter" and fn.name not in writers:
+                        writers.append(fn.name)
+    out.append("/-- the methods of class Transport that assign `self._channel_counter` -/")
+    out.append("def counter_writers : List String := [%s]" % ", ".join('"%s"' % w for w in writers))
+    out.append("")
     out.append("end PV.Generated.C23")
     return "\n".join(out) + "\n"
